@@ -139,16 +139,25 @@ def init_facts(cx, cls):
         st = annotate(p, heap=False)
         # `count = len(values); self.values = values; self.count = count`: a local that is stored in an attribute names that attribute
         alias = {}
+        xalias = {}     # the same for a value that is not a plain name (kwargs['values'], kwargs.get('values', None)): keyed by its dump
         for key, val in st.heap.items():
             if key.startswith('self.') and '[' not in key and isinstance(val, ast.Name):
                 alias.setdefault(val.id, key)
+            elif key.startswith('self.') and '[' not in key and isinstance(val, (ast.Subscript, ast.Call)) and not any(
+                    isinstance(x, ast.Attribute) and U(x).startswith('self.') for x in ast.walk(val)):
+                xalias.setdefault(ast.dump(val), key)
 
         def canon_(e):
-            if not alias:
+            if not alias and not xalias:
                 return e
             from .loader import clone as _clone
 
             class T(ast.NodeTransformer):
+                def visit(self, n):
+                    if isinstance(n, (ast.Subscript, ast.Call)) and xalias and ast.dump(n) in xalias:
+                        return ast.parse(xalias[ast.dump(n)], mode='eval').body
+                    return super().visit(n)
+
                 def visit_Name(self, n):
                     if n.id in alias:
                         return ast.parse(alias[n.id], mode='eval').body
@@ -157,7 +166,7 @@ def init_facts(cx, cls):
         for key, val in st.heap.items():
             if not key.startswith('self.'):
                 continue
-            if not (isinstance(val, ast.Name) and alias.get(val.id) == key):
+            if not (isinstance(val, ast.Name) and alias.get(val.id) == key) and not (isinstance(val, (ast.Subscript, ast.Call)) and xalias.get(ast.dump(val)) == key):
                 val = canon_(val)
             try:
                 v = nz.norm(val)
